@@ -994,7 +994,13 @@ pub(crate) fn eval_query(ctx: &Context, expr: &Query) -> Result<QueryReply, Quer
                     )))
                 }
             };
-            let top = top.with_timezone(&FixedOffset::east_opt(off as i32).unwrap());
+            let offset = FixedOffset::east_opt(off as i32).ok_or_else(|| {
+                QueryError::generic(format!(
+                    "Timezone offset {:+} is out of range, must be within 24 hours",
+                    off
+                ))
+            })?;
+            let top = top.with_timezone(&offset);
             Ok(QueryReply::Date(DateReply::new(ctx, top)))
         }
         Query::Convert(ref top, Conversion::Timezone(tz), None, Digits::Default) => {
